@@ -231,6 +231,7 @@ func (e *Exec) resetPath(it workItem) {
 	e.newWork = nil
 	e.events = nil
 	e.reachedEnd = false
+	e.kfExcluded = false
 	e.blind = false
 	e.globals = map[*ssa.Global]*Value{}
 	e.poolItems = map[*Value][]Value{}
@@ -303,7 +304,9 @@ func (e *Exec) runPath(it workItem) {
 
 	// fold results into the run
 	var evs []pathEvent
-	evs = append(evs, e.events...)
+	if !e.kfExcluded {
+		evs = append(evs, e.events...)
+	}
 	var wit *witness
 	if e.hintValid {
 		w := e.makeWitness(e.hint, outcome)
